@@ -264,6 +264,23 @@ def check_sequence(rec: Recorder, n: int, default_kind: str, percall_kind: str, 
             return
 
 
+def failed_encode(rng: typing.Any) -> None:
+    """An encode that fails part-way through its field list (and is caught by the caller): whatever it left behind must
+    not show up in the next body produced on this thread."""
+    from urllib3.filepost import encode_multipart_formdata
+
+    bad = rng.choice([
+        [("first", "leftover-of-a-failed-call"), ("b", 3.5)],
+        [("first", "leftover-of-a-failed-call"), ("f", ("only-a-name",))],
+        [("first", "leftover-of-a-failed-call"), ("s", "lone-surrogate-\ud800")],
+        [("first", b"leftover-of-a-failed-call"), ("n", None)],
+    ])
+    try:
+        encode_multipart_formdata(bad, boundary=rng.choice([None, "B0undary"]))
+    except Exception:  # noqa: BLE001
+        pass
+
+
 def run_shard(ctx: Ctx, rec: Recorder) -> None:
     names = hostile_names(ctx.pick(3, 4))
     if ctx.shard == 0:
@@ -310,6 +327,9 @@ def run_shard(ctx: Ctx, rec: Recorder) -> None:
         boundary = ctx.rng.choice(BOUNDARIES)
         via = "encode" if ctx.rng.random() < 0.9 else "request_methods"
         rec.case(["rand", fields, container, boundary, via])
+        if i % 7 == 3:
+            failed_encode(ctx.rng)
+            rec.mon("encode_after_failed_encode")
         check(rec, fields, container, boundary, via)
         if i < 2:
             rec.sample({"fields": fields, "container": container, "boundary": boundary, "via": via})
